@@ -95,46 +95,36 @@ fn check_slots_after_removal(node: &'static crate::debt::Node, pre: &Pre, old: u
     vassert!(post.active_writers == 0, "removal_releases_writer_reservation");
 }
 
-/// L-W2 / C04 trace contract: exactly one successful write event on the storage, SeqCst; every debt
-/// that existed on `old` is paid by a CAS that comes *after* it; the old value is not released
-/// before it.
-fn check_removal_trace(storage: usize, old: usize, rmw_kind: u8, node: &'static crate::debt::Node, pre: &Pre) -> model::Rec {
-    let n = model::log_len();
-    let mut rmws = 0;
-    let mut i_rmw = model::LOG_CAP;
-    let mut k = 0;
-    while k < n {
-        let e = model::log_at(k);
-        if e.addr == storage && (e.kind == model::K_SWAP || ((e.kind == model::K_CAS || e.kind == model::K_CASW) && e.ok) || e.kind == model::K_STORE) {
-            rmws += 1;
-            i_rmw = k;
-            vassert!(e.kind == rmw_kind || (rmw_kind == model::K_CASW && e.kind == model::K_CAS), "write_uses_the_expected_rmw");
-        }
-        if e.kind == model::K_DEC && e.addr == model::addr(old) {
-            vassert!(i_rmw < k, "old_value_released_only_after_it_left_the_storage");
-        }
-        k += 1;
+/// Registers the watches of the removal trace contract (call between hooks_on() and the operation).
+pub(crate) struct RemovalWatch {
+    w_write: usize,
+    w_dec: usize,
+}
+fn watch_removal(storage: usize, old: usize, node: &'static crate::debt::Node) -> RemovalWatch {
+    hy::track_node_slots(node);
+    RemovalWatch { w_write: model::watch(model::K_WRITE, storage), w_dec: model::watch(model::K_DEC, model::addr(old)) }
+}
+
+/// L-W2 / C04 trace contract: exactly one write event on the storage, SeqCst; every debt that
+/// existed on `old` is paid by a CAS that comes *after* it; the old value is not released before it.
+fn check_removal_trace(rw: &RemovalWatch, old: usize, rmw_kind: u8, pre: &Pre) -> model::Rec {
+    let wr = model::w(rw.w_write);
+    let dec = model::w(rw.w_dec);
+    vassert!(wr.count == 1, "exactly_one_write_event_on_the_storage");
+    let e = wr.first_rec;
+    vassert!(e.kind == rmw_kind || (rmw_kind == model::K_CASW && e.kind == model::K_CAS), "write_uses_the_expected_rmw");
+    vassert!(e.ord == model::O_SEQCST, "storage_write_is_seqcst");
+    if dec.count > 0 {
+        vassert!(wr.first < dec.first, "old_value_released_only_after_it_left_the_storage");
     }
-    vassert!(rmws == 1, "exactly_one_write_event_on_the_storage");
+    let m = model::mon();
     let mut i = 0;
     while i < 9 {
         if pre.slots[i] == model::addr(old) {
-            let sa = list_h::slot_addr(node, i);
-            let mut paid_after = false;
-            let mut k = i_rmw.min(model::LOG_CAP);
-            while k < n {
-                let e = model::log_at(k);
-                if e.kind == model::K_CAS && e.addr == sa && e.ok && e.a == model::addr(old) && e.b == NONE {
-                    paid_after = true;
-                }
-                k += 1;
-            }
-            vassert!(paid_after, "every_debt_on_the_removed_value_is_paid_after_the_removal");
+            vassert!(m.slot_pay[i] > wr.first && m.slot_pay_exp[i] == model::addr(old), "every_debt_on_the_removed_value_is_paid_after_the_removal");
         }
         i += 1;
     }
-    let e = model::log_at(i_rmw.min(model::LOG_CAP - 1));
-    vassert!(e.ord == model::O_SEQCST, "storage_write_is_seqcst");
     e
 }
 
@@ -146,6 +136,7 @@ fn api_swap<C: Config + Default>() {
     let c_new = model::cnt(new);
     let c_old = model::cnt(stored);
     hooks_on();
+    let rw = watch_removal(storage_addr(&s), stored, node);
 
     let old = s.swap(h);
 
@@ -153,7 +144,7 @@ fn api_swap<C: Config + Default>() {
     vassert!(old.0 == model::addr(stored), "swap_returns_the_value_stored_immediately_before");
     vassert!(stored_addr(&s) == model::addr(new), "swap_stores_the_new_value");
     check_slots_after_removal(node, &pre, stored);
-    let e = check_removal_trace(storage_addr(&s), stored, model::K_SWAP, node, &pre);
+    let e = check_removal_trace(&rw, stored, model::K_SWAP, &pre);
     vassert!(e.a == model::addr(new) && e.res == model::addr(stored), "swap_result_is_the_rmw_old_value");
     if stored != new {
         vassert!(model::cnt(stored) == c_old + held(&pre, stored), "swap_old_count_plus_one_per_paid_debt");
@@ -174,14 +165,14 @@ fn api_swap<C: Config + Default>() {
 
 // @harness name=api_swap_default props=C04,C02,C01,C14,C12 tier=quick flavour=nostd timeout=1800 fn=ArcSwapAny::swap+HybridStrategy::wait_for_readers+Debt::pay_all
 #[cfg_attr(kani, kani::proof)]
-#[cfg_attr(kani, kani::unwind(66))]
+#[cfg_attr(kani, kani::unwind(12))]
 pub(crate) fn api_swap_default() {
     api_swap::<DefaultConfig>();
     vcover!("api_swap_default_end");
 }
 // @harness name=api_swap_nofast props=C14,C04 tier=thorough flavour=nostd timeout=1800 fn=ArcSwapAny::swap
 #[cfg_attr(kani, kani::proof)]
-#[cfg_attr(kani, kani::unwind(66))]
+#[cfg_attr(kani, kani::unwind(12))]
 pub(crate) fn api_swap_nofast() {
     api_swap::<NoFast>();
     vcover!("api_swap_nofast_end");
@@ -190,7 +181,7 @@ pub(crate) fn api_swap_nofast() {
 // store = drop(swap): the replaced value loses exactly the storage's reference.
 // @harness name=api_store_default props=C04,C02,C14 tier=quick flavour=nostd timeout=1800 fn=ArcSwapAny::store
 #[cfg_attr(kani, kani::proof)]
-#[cfg_attr(kani, kani::unwind(66))]
+#[cfg_attr(kani, kani::unwind(12))]
 pub(crate) fn api_store_default() {
     let stored = hy::any_obj();
     let new = hy::any_obj();
@@ -199,11 +190,12 @@ pub(crate) fn api_store_default() {
     let c_new = model::cnt(new);
     let c_old = model::cnt(stored);
     hooks_on();
+    let rw = watch_removal(storage_addr(&s), stored, node);
     s.store(h);
     hooks_off();
     vassert!(stored_addr(&s) == model::addr(new), "store_stores_the_new_value");
     check_slots_after_removal(node, &pre, stored);
-    check_removal_trace(storage_addr(&s), stored, model::K_SWAP, node, &pre);
+    check_removal_trace(&rw, stored, model::K_SWAP, &pre);
     if stored != new {
         vassert!(model::cnt(stored) == c_old + held(&pre, stored) - 1, "store_drops_the_replaced_value_once");
         vassert!(model::cnt(new) == c_new, "store_new_reference_moves_into_the_storage");
@@ -218,50 +210,48 @@ pub(crate) fn api_store_default() {
 // handed out / released; guards become owners.
 // @harness name=api_into_inner_default props=C04,C02,C10,C01,C14 tier=quick flavour=nostd timeout=1800 fn=ArcSwapAny::into_inner
 #[cfg_attr(kani, kani::proof)]
-#[cfg_attr(kani, kani::unwind(66))]
+#[cfg_attr(kani, kani::unwind(12))]
 pub(crate) fn api_into_inner_default() {
     let stored = hy::any_obj();
     let (s, pre, node) = setup::<DefaultConfig>(stored);
     let c_old = model::cnt(stored);
     hooks_on();
+    let w_dec = model::watch(model::K_DEC, model::addr(stored));
     let v = s.into_inner();
     hooks_off();
     vassert!(v.0 == model::addr(stored), "into_inner_returns_the_stored_value");
     check_slots_after_removal(node, &pre, stored);
     vassert!(model::cnt(stored) == c_old + held(&pre, stored), "into_inner_count_plus_one_per_paid_debt");
-    vassert!(model::count_kind(model::K_DEC) == 1, "into_inner_releases_only_the_prepaid_spare");
+    vassert!(model::w(w_dec).count == 1, "into_inner_releases_only_the_prepaid_spare");
     mem::forget(v);
     vcover!("api_into_inner_default_end");
 }
 
 // @harness name=api_drop_default props=C04,C02,C10,C01,C14 tier=quick flavour=nostd timeout=1800 fn=ArcSwapAny::drop
 #[cfg_attr(kani, kani::proof)]
-#[cfg_attr(kani, kani::unwind(66))]
+#[cfg_attr(kani, kani::unwind(12))]
 pub(crate) fn api_drop_default() {
     let stored = hy::any_obj();
     let (s, pre, node) = setup::<DefaultConfig>(stored);
     let c_old = model::cnt(stored);
     hooks_on();
+    let w_dec = model::watch(model::K_DEC, model::addr(stored));
+    hy::track_node_slots(node);
     drop(s);
     hooks_off();
     check_slots_after_removal(node, &pre, stored);
     vassert!(model::cnt(stored) == c_old + held(&pre, stored) - 1, "drop_releases_exactly_the_storage_reference");
     // order: every payment precedes the release of the storage's reference (the last decrement)
-    let n = model::log_len();
-    let mut last_dec = 0;
-    let mut last_pay = 0;
-    let mut k = 0;
-    while k < n {
-        let e = model::log_at(k);
-        if e.kind == model::K_DEC {
-            last_dec = k;
+    let dec = model::w(w_dec);
+    let m = model::mon();
+    let mut i = 0;
+    while i < 9 {
+        if pre.slots[i] == model::addr(stored) {
+            vassert!(m.slot_pay[i] != 0 && m.slot_pay[i] < dec.last, "drop_pays_debts_before_releasing");
         }
-        if e.kind == model::K_CAS && e.ok && e.b == NONE {
-            last_pay = k;
-        }
-        k += 1;
+        i += 1;
     }
-    vassert!(last_pay <= last_dec, "drop_pays_debts_before_releasing");
+    vassert!(dec.count == 2, "drop_releases_the_prepaid_spare_and_the_storage_reference");
     vcover!("api_drop_default_end");
 }
 
@@ -270,7 +260,7 @@ pub(crate) fn api_drop_default() {
 // own field; load_full owns (+1); Guard::from_inner(x) owns x and into_inner gives it back.
 // @harness name=api_load_default props=C03,C10,C14,C02,C17 tier=quick flavour=nostd fn=ArcSwapAny::load+ArcSwapAny::load_full+Guard::into_inner+Guard::from_inner+Guard::deref
 #[cfg_attr(kani, kani::proof)]
-#[cfg_attr(kani, kani::unwind(66))]
+#[cfg_attr(kani, kani::unwind(12))]
 pub(crate) fn api_load_default() {
     let stored = hy::any_obj();
     let (s, pre, node) = setup::<DefaultConfig>(stored);
@@ -279,7 +269,7 @@ pub(crate) fn api_load_default() {
     hooks_on();
     let r: &TP = g.deref();
     hooks_off();
-    vassert!(model::steps() == 0 && model::log_len() == 0, "guard_deref_performs_no_atomic_step_and_no_count_change");
+    vassert!(model::steps() == 0 && model::mon().seq == 0, "guard_deref_performs_no_atomic_step_and_no_count_change");
     vassert!(r.0 == model::addr(stored), "load_returns_the_stored_value");
     let any_free = held_none(&pre) > 0;
     vassert!(model::cnt(stored) == c0 + if any_free { 0 } else { 1 }, "load_borrows_if_a_slot_is_free_else_owns");
@@ -351,19 +341,20 @@ fn api_cas<C: Config + Default>(form: Form) {
         o += 1;
     }
     hooks_on();
+    let rw = watch_removal(storage_addr(&s), stored, node);
 
     let r = do_cas(&s, form, cur, h);
 
     hooks_off();
-    cas_post(&s, r, pre, node, stored, cur, new, c0);
+    cas_post(&s, r, pre, node, stored, cur, new, c0, rw);
     mem::forget(s);
 }
 
-fn cas_post<C: Config + Default>(s: &AS<C>, r: Guard<TP, HybridStrategy<C>>, pre: Pre, node: &'static crate::debt::Node, stored: usize, cur: usize, new: usize, c0: [usize; model::POOL]) {
+fn cas_post<C: Config + Default>(s: &AS<C>, r: Guard<TP, HybridStrategy<C>>, pre: Pre, node: &'static crate::debt::Node, stored: usize, cur: usize, new: usize, c0: [usize; model::POOL], rw: RemovalWatch) {
     vassert!(r.deref().0 == model::addr(stored), "cas_returns_the_value_stored_immediately_before");
     if stored == cur {
         vassert!(stored_addr(s) == model::addr(new), "cas_stores_new_iff_stored_equals_current");
-        let e = check_removal_trace(storage_addr(s), stored, model::K_CASW, node, &pre);
+        let e = check_removal_trace(&rw, stored, model::K_CASW, &pre);
         vassert!(e.a == model::addr(cur) && e.b == model::addr(new), "cas_exchange_expects_current_and_installs_new");
         drop(r);
         check_slots_after_removal(node, &pre, stored);
@@ -375,8 +366,7 @@ fn cas_post<C: Config + Default>(s: &AS<C>, r: Guard<TP, HybridStrategy<C>>, pre
         }
     } else {
         vassert!(stored_addr(s) == model::addr(stored), "cas_failure_leaves_container_unchanged");
-        vassert!(model::count(model::K_CASW, storage_addr(s)) + model::count(model::K_CAS, storage_addr(s)) + model::count(model::K_SWAP, storage_addr(s)) == 0,
-            "cas_failure_performs_no_write_on_the_storage");
+        vassert!(model::w(rw.w_write).count == 0, "cas_failure_performs_no_write_on_the_storage");
         drop(r);
         let post = list_h::view(node);
         vassert!(list_h::same_slots(&post.slots, &pre.slots), "cas_failure_restores_all_slots");
@@ -395,28 +385,28 @@ fn cas_post<C: Config + Default>(s: &AS<C>, r: Guard<TP, HybridStrategy<C>>, pre
 
 // @harness name=api_cas_ref_default props=C05,C04,C02,C14 tier=quick flavour=nostd timeout=1800 fn=ArcSwapAny::compare_and_swap+HybridStrategy::compare_and_swap+AsRaw::as_raw
 #[cfg_attr(kani, kani::proof)]
-#[cfg_attr(kani, kani::unwind(66))]
+#[cfg_attr(kani, kani::unwind(12))]
 pub(crate) fn api_cas_ref_default() {
     api_cas::<DefaultConfig>(Form::RefT);
     vcover!("api_cas_ref_default_end");
 }
 // @harness name=api_cas_constptr_default props=C05 tier=thorough flavour=nostd timeout=1800 fn=ArcSwapAny::compare_and_swap+AsRaw::as_raw
 #[cfg_attr(kani, kani::proof)]
-#[cfg_attr(kani, kani::unwind(66))]
+#[cfg_attr(kani, kani::unwind(12))]
 pub(crate) fn api_cas_constptr_default() {
     api_cas::<DefaultConfig>(Form::ConstPtr);
     vcover!("api_cas_constptr_default_end");
 }
 // @harness name=api_cas_mutptr_default props=C05 tier=thorough flavour=nostd timeout=1800 fn=ArcSwapAny::compare_and_swap+AsRaw::as_raw
 #[cfg_attr(kani, kani::proof)]
-#[cfg_attr(kani, kani::unwind(66))]
+#[cfg_attr(kani, kani::unwind(12))]
 pub(crate) fn api_cas_mutptr_default() {
     api_cas::<DefaultConfig>(Form::MutPtr);
     vcover!("api_cas_mutptr_default_end");
 }
 // @harness name=api_cas_ref_nofast props=C14,C05 tier=thorough flavour=nostd timeout=1800 fn=ArcSwapAny::compare_and_swap
 #[cfg_attr(kani, kani::proof)]
-#[cfg_attr(kani, kani::unwind(66))]
+#[cfg_attr(kani, kani::unwind(12))]
 pub(crate) fn api_cas_ref_nofast() {
     api_cas::<NoFast>(Form::RefT);
     vcover!("api_cas_ref_nofast_end");
@@ -459,14 +449,14 @@ fn api_cas_guard(by_value: bool) {
 
 // @harness name=api_cas_refguard_default props=C05 tier=quick flavour=nostd timeout=1800 fn=ArcSwapAny::compare_and_swap+AsRaw::as_raw
 #[cfg_attr(kani, kani::proof)]
-#[cfg_attr(kani, kani::unwind(66))]
+#[cfg_attr(kani, kani::unwind(12))]
 pub(crate) fn api_cas_refguard_default() {
     api_cas_guard(false);
     vcover!("api_cas_refguard_default_end");
 }
 // @harness name=api_cas_guard_default props=C05 tier=thorough flavour=nostd timeout=1800 fn=ArcSwapAny::compare_and_swap+AsRaw::as_raw
 #[cfg_attr(kani, kani::proof)]
-#[cfg_attr(kani, kani::unwind(66))]
+#[cfg_attr(kani, kani::unwind(12))]
 pub(crate) fn api_cas_guard_default() {
     api_cas_guard(true);
     vcover!("api_cas_guard_default_end");
@@ -490,7 +480,7 @@ fn rcu_closure(cur: &TP) -> TP {
 // whose expected value is v; the replaced value is returned as an owner.
 // @harness name=api_rcu_default props=C06,C04,C02,C14 tier=quick flavour=nostd timeout=1800 fn=ArcSwapAny::rcu+ArcSwapAny::compare_and_swap
 #[cfg_attr(kani, kani::proof)]
-#[cfg_attr(kani, kani::unwind(66))]
+#[cfg_attr(kani, kani::unwind(12))]
 pub(crate) fn api_rcu_default() {
     let stored = hy::any_obj();
     let next = hy::any_obj();
@@ -502,13 +492,14 @@ pub(crate) fn api_rcu_default() {
     let c_old = model::cnt(stored);
     let c_next = model::cnt(next);
     hooks_on();
+    let rw = watch_removal(storage_addr(&s), stored, node);
     let old = s.rcu(rcu_closure);
     hooks_off();
     vassert!(unsafe { F_CALLS } == 1, "rcu_calls_closure_once_without_contention");
     vassert!(unsafe { F_ARG[0] } == model::addr(stored), "rcu_passes_the_stored_value_to_the_closure");
     vassert!(old.0 == model::addr(stored), "rcu_returns_the_value_it_replaced");
     vassert!(stored_addr(&s) == model::addr(next), "rcu_installs_the_closure_result");
-    let e = check_removal_trace(storage_addr(&s), stored, model::K_CASW, node, &pre);
+    let e = check_removal_trace(&rw, stored, model::K_CASW, &pre);
     vassert!(e.a == model::addr(stored) && e.b == model::addr(next), "rcu_installs_only_on_top_of_the_value_passed_to_the_closure");
     check_slots_after_removal(node, &pre, stored);
     if stored != next {
